@@ -24,6 +24,28 @@ type Case struct {
 	T  string   `json:"t,omitempty"`
 	H  int      `json:"h,omitempty"`
 	L  int      `json:"l,omitempty"`
+	// Order: which of the six groups of calls (MaxSignedValue, MinSignedValue, MaxUnsignedValue,
+	// SignedValue, UnsignedValue, Scale) comes first, second, ... : the index of a permutation
+	// (0 = the order listed). Fresh: the case is evaluated in a fresh process (kit.Oracle.Fresh),
+	// so that these are the first library calls of a process, in that order.
+	Order int  `json:"order,omitempty"`
+	Fresh bool `json:"fresh,omitempty"`
+}
+
+// perm decodes a permutation of 0..n-1 from its index (factorial number system).
+func perm(idx, n int) []int {
+	pool := make([]int, n)
+	for i := range pool {
+		pool[i] = i
+	}
+	out := make([]int, 0, n)
+	for i := n; i >= 1; i-- {
+		k := idx % i
+		idx /= i
+		out = append(out, pool[k])
+		pool = append(pool[:k], pool[k+1:]...)
+	}
+	return out
 }
 
 type scaleFn func(h, l signal.BitDepth) *big.Int
@@ -49,26 +71,71 @@ var IntTypes = kit.BuiltinNames(kit.Signed, kit.Unsigned)
 func pow2(n int) *big.Int { return new(big.Int).Lsh(big.NewInt(1), uint(n)) }
 
 func Check(c *Case) (res kit.Result) {
-	if c.B < 1 || c.B > 64 || len(c.Vs) > 1<<16 || len(c.Us) > 1<<16 {
+	if c.B < 1 || c.B > 64 || len(c.Vs) > 1<<16 || len(c.Us) > 1<<16 || c.Order < 0 || c.Order >= 720 {
 		return
 	}
-	b := signal.BitDepth(c.B)
+	if c.Fresh {
+		inner := *c
+		inner.Fresh = false
+		return kit.FreshRun(&inner)
+	}
+	if c.T != "" {
+		if _, ok := scales[c.T]; !ok || c.L < 1 || c.H > 64 || c.H < c.L {
+			return kit.Result{}
+		}
+	}
+	steps := []func() bool{
+		func() bool { return checkMaxSigned(c, &res) }, func() bool { return checkMinSigned(c, &res) }, func() bool { return checkMaxUnsigned(c, &res) },
+		func() bool { return checkSignedValues(c, &res) }, func() bool { return checkUnsignedValues(c, &res) }, func() bool { return checkScale(c, &res) },
+	}
+	for _, i := range perm(c.Order, len(steps)) {
+		if !steps[i]() {
+			return
+		}
+	}
+	if c.B != 8 {
+		res.Class("depthOtherThan8")
+	}
+	if c.Order != 0 {
+		res.Class("callsInAnotherOrder")
+	}
+	return
+}
+
+func bounds(c *Case) (b signal.BitDepth, wantMax, wantMin, wantMaxU *big.Int) {
 	one := big.NewInt(1)
-	wantMax := new(big.Int).Sub(pow2(c.B-1), one)
-	wantMin := new(big.Int).Neg(pow2(c.B - 1))
-	wantMaxU := new(big.Int).Sub(pow2(c.B), one)
+	return signal.BitDepth(c.B), new(big.Int).Sub(pow2(c.B-1), one), new(big.Int).Neg(pow2(c.B - 1)), new(big.Int).Sub(pow2(c.B), one)
+}
+
+func checkMaxSigned(c *Case, res *kit.Result) bool {
+	b, wantMax, _, _ := bounds(c)
 	if got := big.NewInt(b.MaxSignedValue()); got.Cmp(wantMax) != 0 {
 		res.Failf("BitDepth(%d).MaxSignedValue() = %s, want %s", c.B, got, wantMax)
-		return
+		return false
 	}
+	return true
+}
+
+func checkMinSigned(c *Case, res *kit.Result) bool {
+	b, _, wantMin, _ := bounds(c)
 	if got := big.NewInt(b.MinSignedValue()); got.Cmp(wantMin) != 0 {
 		res.Failf("BitDepth(%d).MinSignedValue() = %s, want %s", c.B, got, wantMin)
-		return
+		return false
 	}
+	return true
+}
+
+func checkMaxUnsigned(c *Case, res *kit.Result) bool {
+	b, _, _, wantMaxU := bounds(c)
 	if got := new(big.Int).SetUint64(b.MaxUnsignedValue()); got.Cmp(wantMaxU) != 0 {
 		res.Failf("BitDepth(%d).MaxUnsignedValue() = %s, want %s", c.B, got, wantMaxU)
-		return
+		return false
 	}
+	return true
+}
+
+func checkSignedValues(c *Case, res *kit.Result) bool {
+	b, wantMax, wantMin, _ := bounds(c)
 	vs := append([]int64(nil), c.Vs...)
 	sort.Slice(vs, func(i, j int) bool { return vs[i] < vs[j] })
 	var prev int64
@@ -83,18 +150,23 @@ func Check(c *Case) (res kit.Result) {
 		got := b.SignedValue(v)
 		if big.NewInt(got).Cmp(want) != 0 {
 			res.Failf("BitDepth(%d).SignedValue(%d) = %d, want %s", c.B, v, got, want)
-			return
+			return false
 		}
 		if again := b.SignedValue(got); again != got {
 			res.Failf("BitDepth(%d).SignedValue is not idempotent: %d -> %d -> %d", c.B, v, got, again)
-			return
+			return false
 		}
 		if i > 0 && got < prev {
 			res.Failf("BitDepth(%d).SignedValue is not order-preserving: %d -> %d after %d -> %d", c.B, v, got, vs[i-1], prev)
-			return
+			return false
 		}
 		prev = got
 	}
+	return true
+}
+
+func checkUnsignedValues(c *Case, res *kit.Result) bool {
+	b, _, _, wantMaxU := bounds(c)
 	us := append([]uint64(nil), c.Us...)
 	sort.Slice(us, func(i, j int) bool { return us[i] < us[j] })
 	var uprev uint64
@@ -106,23 +178,24 @@ func Check(c *Case) (res kit.Result) {
 		got := b.UnsignedValue(u)
 		if new(big.Int).SetUint64(got).Cmp(want) != 0 {
 			res.Failf("BitDepth(%d).UnsignedValue(%d) = %d, want %s", c.B, u, got, want)
-			return
+			return false
 		}
 		if again := b.UnsignedValue(got); again != got {
 			res.Failf("BitDepth(%d).UnsignedValue is not idempotent: %d -> %d -> %d", c.B, u, got, again)
-			return
+			return false
 		}
 		if i > 0 && got < uprev {
 			res.Failf("BitDepth(%d).UnsignedValue is not order-preserving", c.B)
-			return
+			return false
 		}
 		uprev = got
 	}
+	return true
+}
+
+func checkScale(c *Case, res *kit.Result) bool {
 	if c.T != "" {
-		f, ok := scales[c.T]
-		if !ok || c.L < 1 || c.H > 64 || c.H < c.L {
-			return kit.Result{}
-		}
+		f := scales[c.T]
 		ti := kit.Info(c.T)
 		_, hi := kit.IntRange(ti)
 		want := pow2(c.H - c.L)
@@ -130,25 +203,25 @@ func Check(c *Case) (res kit.Result) {
 		var got *big.Int
 		if p, v := kit.Try(func() { got = f(signal.BitDepth(c.H), signal.BitDepth(c.L)) }); p {
 			res.Failf("Scale[%s](%d,%d) panicked: %v", c.T, c.H, c.L, v)
-			return
+			return false
 		}
 		if want.Cmp(new(big.Int).SetUint64(hi)) <= 0 { // "whenever that fits the integer type"
 			if got.Cmp(want) != 0 {
 				res.Failf("Scale[%s](%d,%d) = %s, want 2^%d = %s", c.T, c.H, c.L, got, c.H-c.L, want)
-				return
+				return false
 			}
 			res.Class("scale")
 		}
 	}
-	if c.B != 8 {
-		res.Class("depthOtherThan8")
-	}
-	return
+	return true
 }
 
 func FP(c *Case) uint64 {
 	h := kit.NewHasher()
-	h.Ints([]int{c.B, c.H, c.L, len(c.Vs), len(c.Us)})
+	h.Ints([]int{c.B, c.H, c.L, len(c.Vs), len(c.Us), c.Order})
+	if c.Fresh {
+		h.Int(1)
+	}
 	h.Str(c.T)
 	for _, v := range c.Vs {
 		h.U64(uint64(v))
@@ -214,6 +287,10 @@ func Gen(t *rapid.T) *Case {
 		c.L = rapid.IntRange(1, 64).Draw(t, "l")
 		c.H = rapid.IntRange(c.L, 64).Draw(t, "h")
 	}
+	if rapid.Bool().Draw(t, "reorder") {
+		c.Order = rapid.IntRange(0, 719).Draw(t, "order")
+	}
+	c.Fresh = kit.Chance(t, "fresh", 1, 2500)
 	return c
 }
 
